@@ -1,12 +1,21 @@
-"""Fork-based fan-out. Workers are forked from a parent that has imported pptx but holds no live
+"""Fork-based fan-out with a watchdog. Workers are forked from a parent that has imported pptx but holds no live
 objects; each worker processes whole chunks and returns one `Partial` per chunk (no fork per case).
+
+Watchdog: a chunk that does not come back within the deadline (VERIF_CHUNK_TIMEOUT seconds; default 300 s in the
+quick tier, 1800 s in the thorough tier — ordinary chunks take seconds) means the library did not terminate on
+some input of that chunk (e.g. a membership test that iterates a 2**32 range inside C code cannot be interrupted
+from Python). The worker is killed, the chunk is reported as a violation `<ID>|hang` (its items are in the replay
+file), the run is no longer exhaustive, and the remaining chunks are still explored.
 """
 
 from __future__ import annotations
 
 import multiprocessing as mp
 import os
+import signal
+import time
 import traceback
+from multiprocessing.connection import wait as _wait
 
 from .run import HarnessError, Partial
 
@@ -21,13 +30,61 @@ def ncpu():
     return n or min(16, os.cpu_count() or 1)
 
 
-def _work(chunk):
-    part = Partial()
+def _timeout_for(ctx):
     try:
-        _FN(part, chunk)
-    except Exception:
-        return ("error", traceback.format_exc(), part)
-    return ("ok", None, part)
+        v = float(os.environ.get("VERIF_CHUNK_TIMEOUT", "0") or 0)
+    except ValueError:
+        v = 0
+    if v > 0:
+        return v
+    return 1800.0 if getattr(ctx, "tier", "quick") == "thorough" else 300.0
+
+
+def _worker_loop(conn):
+    while True:
+        try:
+            msg = conn.recv()
+        except EOFError:
+            return
+        if msg is None:
+            return
+        idx, chunk = msg
+        part = Partial()
+        try:
+            _FN(part, chunk)
+            conn.send((idx, "ok", None, part))
+        except Exception:  # noqa: BLE001
+            conn.send((idx, "error", traceback.format_exc(), part))
+
+
+class _Worker:
+    def __init__(self, mpctx):
+        self.conn, child = mp.Pipe()
+        self.proc = mpctx.Process(target=_worker_loop, args=(child,), daemon=True)
+        self.proc.start()
+        child.close()
+        self.busy = None      # (idx, chunk, start time)
+
+    def give(self, idx, chunk):
+        self.busy = (idx, chunk, time.time())
+        self.conn.send((idx, chunk))
+
+    def stop(self):
+        try:
+            self.conn.send(None)
+        except Exception:  # noqa: BLE001
+            pass
+
+    def kill(self):
+        try:
+            os.kill(self.proc.pid, signal.SIGKILL)
+        except Exception:  # noqa: BLE001
+            pass
+        self.proc.join(5)
+        try:
+            self.conn.close()
+        except Exception:  # noqa: BLE001
+            pass
 
 
 def fanout(ctx, fn, items, chunk_size=None, min_parallel=32):
@@ -48,12 +105,78 @@ def fanout(ctx, fn, items, chunk_size=None, min_parallel=32):
     if chunk_size is None:
         chunk_size = max(1, len(items) // (n * 4))
     chunks = [items[i:i + chunk_size] for i in range(0, len(items), chunk_size)]
+    deadline = _timeout_for(ctx)
     _FN = fn
     mpctx = mp.get_context("fork")
-    with mpctx.Pool(n) as pool:
-        for status, err, part in pool.imap_unordered(_work, chunks):
-            ctx.merge(part)
-            if status == "error":
-                pool.terminate()
-                raise HarnessError("worker crashed:\n" + err)
-    _FN = None
+    workers = [_Worker(mpctx) for _ in range(min(n, len(chunks)))]
+    nxt = 0
+    done = 0
+    err = None
+    try:
+        for w in workers:
+            if nxt < len(chunks):
+                w.give(nxt, chunks[nxt])
+                nxt += 1
+        while done < len(chunks) and err is None:
+            busy = [w for w in workers if w.busy is not None]
+            if not busy:
+                break
+            ready = _wait([w.conn for w in busy], timeout=1.0)
+            for w in busy:
+                if w.conn in ready:
+                    try:
+                        idx, status, tb, part = w.conn.recv()
+                    except (EOFError, OSError):
+                        # the worker died on its own (segfault, os._exit): the machinery cannot vouch for the chunk
+                        err = "worker died while processing a chunk (first item: %r)" % (w.busy[1][0],)
+                        break
+                    ctx.merge(part)
+                    w.busy = None
+                    done += 1
+                    if status == "error":
+                        err = "worker crashed:\n" + tb
+                        break
+                    if nxt < len(chunks):
+                        w.give(nxt, chunks[nxt])
+                        nxt += 1
+            now = time.time()
+            for i, w in enumerate(workers):
+                if w.busy is not None and now - w.busy[2] > deadline:
+                    idx, chunk, _t0 = w.busy
+                    w.kill()
+                    done += 1
+                    _report_hang(ctx, chunk, deadline)
+                    nw = _Worker(mpctx)
+                    workers[i] = nw
+                    if nxt < len(chunks):
+                        nw.give(nxt, chunks[nxt])
+                        nxt += 1
+    finally:
+        for w in workers:
+            if w.busy is None:
+                w.stop()
+            else:
+                w.kill()
+        for w in workers:
+            if w.proc.is_alive():
+                w.proc.join(2)
+                if w.proc.is_alive():
+                    w.kill()
+        _FN = None
+    if err:
+        raise HarnessError(err)
+
+
+def _report_hang(ctx, chunk, deadline):
+    pid = getattr(ctx, "pid", "C??")
+    ctx.count("hung_chunks")
+    if hasattr(ctx, "cap"):
+        ctx.cap("a chunk of %d cases did not terminate within %.0f s and was killed" % (len(chunk), deadline))
+    try:
+        first = repr(chunk[0])[:300]
+    except Exception:  # noqa: BLE001
+        first = "?"
+    ctx.violation("%s|hang" % pid,
+                  "the library did not terminate within %.0f s on a chunk of %d cases (worker killed); first case of the "
+                  "chunk: %s" % (deadline, len(chunk), first),
+                  {"__hang__": True, "deadline_s": deadline, "chunk": chunk[:50]})
